@@ -32,6 +32,7 @@ import (
 // One case per (field, accessing function outside LOOP/INIT):
 //   in = [1 fieldHash funcHash isWrite ctxmask lockmask fieldWrittenAfterInit fieldLock]   fieldLock = the lock most writers of the field hold
 // one case per channel send outside the loop:   in = [2 chanHash funcHash closeAware]
+// one case per reply channel of a request:     in = [6 funcHash buffered]
 // one case for the lock order:                  in = [3 nedges (a b)*]
 // one case with the size of the table:          in = [4 entries budget]
 // obs is empty: the monitor (Owner.v) decides.
@@ -42,6 +43,7 @@ const (
 	ctxLoop = 1
 	ctxAPI  = 2
 	ctxBG   = 4
+	ctxInit = 8 // reachable from a constructor only: the object is not shared yet
 )
 
 type ownAccess struct {
@@ -65,6 +67,7 @@ type ownFunc struct {
 	locks    []ownLockOp
 	calls    []ownCall
 	sends    []ownSend
+	replies  []ownSend // reply channels created for a request to the loop: aware = buffered
 	ctx      int
 	init     bool
 	entry    map[string]bool // locks held at every call site
@@ -186,6 +189,12 @@ func (w *ownWalker) kindOf(e ast.Expr) string {
 		}
 	case *ast.ParenExpr:
 		return w.kindOf(x.X)
+	case *ast.UnaryExpr: // &Session{...}
+		if x.Op == token.AND {
+			if cl, ok := x.X.(*ast.CompositeLit); ok {
+				return typeKind(&ast.StarExpr{X: cl.Type})
+			}
+		}
 	}
 	return ""
 }
@@ -395,6 +404,24 @@ func (w *ownWalker) walkBody(body ast.Node) {
 					w.fn.sends = append(w.fn.sends, ownSend{ch: f, pos: x.Pos(), aware: aware})
 				}
 			}
+		case *ast.KeyValueExpr:
+			// a request to the loop carries the channel for the answer; the caller may have given up by the
+			// time the loop answers, so the channel must take the answer without a receiver
+			if k, ok := x.Key.(*ast.Ident); ok && k.Name == "Response" {
+				if ce, ok := x.Value.(*ast.CallExpr); ok {
+					if id, ok := ce.Fun.(*ast.Ident); ok && id.Name == "make" && len(ce.Args) >= 1 {
+						if _, isChan := ce.Args[0].(*ast.ChanType); isChan {
+							buffered := false
+							if len(ce.Args) >= 2 {
+								if bl, ok := ce.Args[1].(*ast.BasicLit); ok && bl.Value != "0" {
+									buffered = true
+								}
+							}
+							w.fn.replies = append(w.fn.replies, ownSend{ch: "Response", pos: x.Pos(), aware: buffered})
+						}
+					}
+				}
+			}
 		case *ast.DeferStmt:
 			if sel, ok := x.Call.Fun.(*ast.SelectorExpr); ok {
 				if lk, isUnlock, isLock := w.lockOp(sel); isLock || isUnlock {
@@ -586,6 +613,9 @@ func buildOwnTable() *ownTable {
 				continue
 			}
 			f.ctx |= bit
+			if f.init && bit != ctxInit {
+				continue // what a constructor calls works on an object nobody else has yet
+			}
 			for _, c := range f.calls {
 				if _, ok := tab.funcs[c.callee]; ok {
 					stack = append(stack, c.callee)
@@ -594,6 +624,11 @@ func buildOwnTable() *ownTable {
 		}
 	}
 	mark("torrent.run", ctxLoop)
+	for n, f := range tab.funcs {
+		if f.init {
+			mark(n, ctxInit)
+		}
+	}
 	for n := range tab.funcs {
 		parts := strings.SplitN(n, ".", 2)
 		if len(parts) == 2 && (parts[0] == "Torrent" || parts[0] == "Session" || parts[0] == "rpcHandler") && ast.IsExported(parts[1]) {
@@ -605,6 +640,19 @@ func buildOwnTable() *ownTable {
 	}
 	for n := range tab.cbRoots {
 		mark(n, ctxBG)
+	}
+	// a method nobody is seen to call (reflection, an interface, a caller this analysis cannot type) may be
+	// called from anywhere
+	for n, f := range tab.funcs {
+		if f.ctx == 0 && !f.init && !strings.HasPrefix(n, "func.") {
+			mark(n, ctxBG)
+		}
+	}
+	for _, f := range tab.funcs {
+		if f.ctx == ctxInit {
+			f.init = true // only ever called while the object is under construction
+		}
+		f.ctx &^= ctxInit
 	}
 	// locks held at every call site (greatest fixpoint of the intersection over callers)
 	callers := map[string][]struct {
@@ -744,6 +792,10 @@ func buildOwnEntries() []ownEntry {
 					edges = append(edges, [2]int{lid[l], lid[op.lock]})
 				}
 			}
+		}
+		for _, s := range f.replies {
+			out = append(out, ownEntry{in: []int64{6, h31(f.name), b2i(s.aware)},
+				note: fmt.Sprintf("reply channel of a request created in %s (line %d) buffered=%v", f.name, tab.fset.Position(s.pos).Line, s.aware)})
 		}
 		for _, s := range f.sends {
 			if f.ctx&^ctxLoop == 0 && f.ctx != 0 {
